@@ -18,7 +18,9 @@ HERE = Path(__file__).resolve().parent
 sys.path.insert(0, str(HERE))
 from mutants_seed import M  # noqa: E402
 
-EQUIV = {"m27", "m29", "m30", "m31"}  # m30: R == 1 implies r == 0, so the edit changes nothing
+EQUIV = {"m27", "m29", "m30"}  # m30: R == 1 implies r == 0, so the edit changes nothing
+# (m31 was equivalent for wells inside the shifted region only; since unshift is also judged on wells outside of it
+#  - repair D40 - it answers such wells with a wrong well for single-column plates and counts as a true positive)
 
 
 def run(mid, prop, file, old, new, tier, patch=None):
